@@ -191,6 +191,11 @@ def _fold(op, a, b):
     return None
 
 
+def _ident_key(v):
+    """identifies `the same array value` for the x - x[0] idiom: same storage, same shape, same provenance and typing"""
+    return (v.origin, v.shape, v.tags, tuple(sorted(v.alg.items(), key=lambda kv: kv[0])), v.sign, v.dtype)
+
+
 def binop(I, fr, op, l, r, node):
     # ---- sequences and strings
     if l.kind == K_STR or r.kind == K_STR:
@@ -259,6 +264,9 @@ def binop(I, fr, op, l, r, node):
             if rscalar and l.mono:
                 mono = l.mono
         f0 = (l.f0 and r.f0) or (l.f0 and r.sign == S_ZERO) or (r.f0 and l.sign == S_ZERO)
+        if isinstance(op, ast.Sub) and isinstance(r.note, tuple) and r.note and r.note[0] == "first-of" and l.kind == K_ARRAY and \
+                l.shape is not None and len(l.shape) == 1 and r.note[1] == _ident_key(l):
+            f0 = True           # x - x[0]: the first element is exactly zero (the rebase idiom, in place or not)
         if l.sym is not None and r.sym is not None:
             sym = l.sym + r.sym if isinstance(op, ast.Add) else l.sym - r.sym
         if l.expo is not None and r.expo is not None:
@@ -725,9 +733,13 @@ def subscript(I, fr, base, idx, node, quiet=False):
         if k in (0, -1):
             ext = ("lo" if k == 0 else "hi", tuple(sorted(b.origin)))
             tags = tags | frozenset(["sel:first" if k == 0 else "sel:last"])
+    if kind == K_SCALAR and len(comps) == 1 and comps[0] is not None and comps[0].kind == K_SCALAR and comps[0].ext is not None:
+        tags = tags | frozenset(["at:" + comps[0].ext[0]])     # element read at the smallest / largest index of an ascending index array
     note = None
     if len(comps) == 1 and int_const(comps[0]) == -1 and 0 in b.mono and kind == K_ARRAY:
         note = "lastof"
+    if kind == K_SCALAR and len(comps) == 1 and int_const(comps[0]) == 0 and b.kind == K_ARRAY and b.shape is not None and len(b.shape) == 1:
+        note = ("first-of", _ident_key(b))
     return AV(kind=kind, dtype=b.dtype, origin=origin, shape=shape, alg=alg, sign=b.sign,
               mono=frozenset(mono_map.values()), tags=tags, indef=indef, f0=f0,
               sym=None, const=_NOCONST, ext=ext, note=note)
@@ -2029,11 +2041,24 @@ def _concatenate(C):
         else:
             d = None
     rest_ok = all(p.shape is not None and len(p.shape) == 1 for p in parts)
+    trailing = ()
+    ax = C.arg(1, "axis")
+    if not rest_ok and short == "concatenate" and (ax is None or int_const(ax) == 0) and parts and \
+            all(p.shape is not None and len(p.shape) == len(parts[0].shape) >= 1 for p in parts):
+        # N-D parts joined along the first axis: trailing dimensions are those of the parts (taken where known)
+        tr = []
+        for k in range(1, len(parts[0].shape)):
+            known = [p.shape[k] for p in parts if p.shape[k] is not None]
+            tr.append(known[0] if known and all(x == known[0] for x in known) else None)
+        trailing = tuple(tr)
+        rest_ok = True
     sign = parts[0].sign if parts else S_ANY
     for p in parts[1:]:
         sign = sign_join(sign, p.sign)
     return AV(kind=K_ARRAY, dtype=join_dtypes(parts) if parts else "real",
-              shape=(d,) if (d is not None and rest_ok) else None, alg=alg_lub_many(parts), sign=sign,
+              shape=((d,) + trailing) if rest_ok and short in ("concatenate", "hstack") and (d is not None or
+                                                                                             all(p.shape is not None for p in parts)) else None,
+              alg=alg_lub_many(parts), sign=sign,
               origin=C.fresh(), tags=tags_of(*parts), indef=indef_of(*parts), f0=bool(parts) and parts[0].f0)
 
 
